@@ -7,6 +7,7 @@ time (M-CPU, 3-fold confirmation).
 """
 from __future__ import annotations
 
+import contextlib
 import os
 import random
 import tempfile
@@ -92,6 +93,11 @@ def observe(data, res: Result, label, via="bytes", path=None):
     elif via == "file":
         o = lab.parse(data, via_file=path)
         nbytes = len(data)
+    elif via == "debug":
+        # Parser(debug=True): traces go to stdout, the contract on the call is the same
+        with contextlib.redirect_stdout(_Sink()):
+            o = lab.parse(data, parser=lab.sl_parser.Parser(debug=True))
+        nbytes = len(data)
     else:
         o = lab.parse(data)
         nbytes = len(data)
@@ -107,7 +113,7 @@ def observe(data, res: Result, label, via="bytes", path=None):
         # two consecutive calls already ran into the per-call alarm (parserlab); a third
         # confirmation makes it a verdict: no linear-time behaviour needs 3 x 8 s for this
         o3 = lab.parse(data if via != "str" else data.decode("utf-8", "replace"))
-        if o3.kind == "slow":
+        if o3.kind == "slow" and via != "debug":
             res.violation({"kind": "cpu-blowup", "size-class": "<=%d" % (
                 1 << max(6, len(data).bit_length()))},
                 dict(wit, detail="no verdict within %.0f s in 4 consecutive attempts "
@@ -124,6 +130,14 @@ def observe(data, res: Result, label, via="bytes", path=None):
         res.violation({"kind": "lexer-progress"},
                       dict(wit, tokens=contracts.LEX["tokens"], nbytes=nbytes))
     return o
+
+
+class _Sink:
+    def write(self, s):
+        return len(s)
+
+    def flush(self):
+        pass
 
 
 class StopShard(Exception):
@@ -208,6 +222,8 @@ def run_bytes(shard, res):
                 via = "bytes"
                 if r < 0.04:
                     via = "str"
+                elif r > 0.98:
+                    via = "debug"
                 elif r < 0.045:
                     via = "file"
                     with open(tmp.name, "wb") as f:
@@ -239,7 +255,7 @@ def run_long(shard, res):
     tmp.close()
     try:
         for label, data, info in pwork.cases(shard):
-            for via in ("bytes", "str", "file"):
+            for via in ("bytes", "str", "file", "debug"):
                 if via == "file":
                     with open(tmp.name, "wb") as f:
                         f.write(data)
